@@ -9,7 +9,15 @@ where
 {
     if let Some(prev) = maybe_prev {
         if event.is_subject == prev.is_subject {
-            event.set_in_out(!prev.is_in_out(), prev.is_other_in_out());
+            if prev.is_vertical() {
+                // A vertical predecessor has no extent to the right of the sweep line: what lies
+                // below `event` is the region below (= to the right of) the vertical edge, so the
+                // edge must not be counted as a crossed boundary (same compensation as for a
+                // vertical predecessor of the other polygon below).
+                event.set_in_out(prev.is_in_out(), prev.is_other_in_out());
+            } else {
+                event.set_in_out(!prev.is_in_out(), prev.is_other_in_out());
+            }
         } else if prev.is_vertical() {
             event.set_in_out(!prev.is_other_in_out(), !prev.is_in_out());
         } else {
